@@ -93,3 +93,28 @@ func VRFVerify(pk, pi, alpha []byte, v10 bool) (bool, []byte) {
 	}
 	return true, beta
 }
+
+// VRFForge builds the proof (Gamma, c, s = k) for an arbitrary public-key string and Gamma point, i.e. what a
+// prover without a secret key can compute. It verifies (ignoring key validation) iff c*Y = O and c*Gamma' = O
+// where Gamma' = Gamma - "xH" does not apply: with a small-order Y and small-order Gamma both terms vanish
+// when c = 0 mod 8.
+func VRFForge(pk []byte, gamma Pt, alpha []byte, v10 bool, k *big.Int) ([]byte, *big.Int) {
+	H := vrfEncodeToCurve(pk, alpha)
+	kB, kH := B.Mul(k), H.Mul(k)
+	c := vrfChallenge(!v10, pk, H, gamma, kB, kH)
+	pi := append([]byte{}, Encode(gamma)...)
+	pi = append(pi, LE32(c)[:16]...)
+	pi = append(pi, LE32(new(big.Int).Mod(k, L))...)
+	return pi, c
+}
+
+// VRFNonce returns the deterministic nonce (or the added-randomness one when z != nil).
+func VRFNonce(seed, alpha, z []byte) *big.Int {
+	key := NewKey(seed)
+	H := vrfEncodeToCurve(key.Pub, alpha)
+	if z == nil {
+		return hashModL(key.Prefix, Encode(H))
+	}
+	pad := make([]byte, 1024-(32+32))
+	return hashModL(z, key.Prefix, pad, Encode(H))
+}
